@@ -1,3 +1,109 @@
-From Akita Require Import Lib.Base Lib.Fifo C09.Model.
-Theorem c09_tmp : True. Proof. exact I. Qed.
-Print Assumptions c09_tmp.
+(** C09 — no lost wake-ups.  Property theorems only.
+
+    Full statement (properties.jsonl): when the event queue becomes empty, (1) no port
+    holds an outgoing message whose connection could deliver it, and (2) no component
+    that drains its inputs has an unread incoming message — for any mix of ticking and
+    event-driven components on direct connections, whatever the send times.
+
+    On the code as it is, the statement is FALSE ([c09_refuted], reproduced on the real
+    code by the harness and listed as known finding F-C09-1): [TickScheduler.TickNow]
+    drops a request made at the instant whose tick event was already handled.
+    For the repaired guard ([GuardNew]: such a request schedules the next clock edge)
+    clause (1) is proved for every topology: a connection is analysed in an arbitrary
+    environment ([cstep]: any sends / retrievals on its ports by whatever components,
+    any timing).  Clause (2) is not proved here (what is missing: the analogous
+    invariant for a draining component — "unread input implies a request since its
+    last activation" — over [tick_later_ok] and the event-driven pendingWakeup guard,
+    which is C13's subject); it is checked on every run by the quiescent-state scan. *)
+From Akita Require Import Lib.Base Lib.Fifo Lib.Port Lib.Conn C10.Model C10.Exec C10.Proofs
+     C09.Model C09.Proofs.
+Local Open Scope N_scope.
+
+(** REFUTED on the current code: a concrete topology (two connections bridged by an
+    event-driven relay, built like the harness builds it) whose run under the guard as
+    coded ends — both event queues empty — with a deliverable message stranded in the
+    relay's outgoing port (port 3 holds message 1002 for port "6", which has room). *)
+Theorem c09_refuted :
+  exists w0 : world, w_guard w0 = GuardOld /\
+    let '(tr, w, done) := run 100 w0 [] in
+    done = true /\ w_prim w = [] /\ w_sec w = [] /\
+    deliverable_head w 3 = true /\ quiescent_clean w = false.
+Proof. exists (witness_world GuardOld). split; [reflexivity|exact witness_old_stranded]. Qed.
+Print Assumptions c09_refuted.
+
+(** the same topology under the repaired guard ends clean *)
+Theorem c09_witness_repaired_clean :
+  let '(tr, w, done) := run 100 (witness_world GuardNew) [] in
+  done = true /\ w_prim w = [] /\ w_sec w = [] /\ quiescent_clean w = true.
+Proof. exact witness_new_clean. Qed.
+Print Assumptions c09_witness_repaired_clean.
+
+(** Scheduler level, guard as coded: TickNow at T, the tick at T is handled, a second
+    TickNow at T is dropped with nothing pending; the repaired guard schedules T+period. *)
+Theorem c09_ticknow_old_loses_request :
+  let s0 := mk_sched false 0 1000 true None in
+  let '(s1, ev1) := tick_now GuardOld 2000 s0 in
+  let s2 := mark_handled s1 2000 in
+  let q2 := remove1 2000 (olist ev1) in
+  let '(s3, ev3) := tick_now GuardOld 2000 s2 in
+  ev1 = Some 2000 /\ q2 = [] /\ ev3 = None /\ snd (tick_now GuardNew 2000 s2) = Some 3000.
+Proof. exact tick_now_old_loses_request. Qed.
+Print Assumptions c09_ticknow_old_loses_request.
+
+(** Scheduler level, repaired guard: in every state satisfying the scheduler invariant
+    (pending events not in the past; the latest scheduled tick is pending or was
+    handled; handled times not in the future), a TickNow or TickLater leaves a tick
+    event pending, and the invariant is kept — also by the engine handling the earliest
+    pending tick and by time passing. *)
+Theorem c09_request_leaves_tick_pending : forall s q now, sched_inv s q now ->
+  (let '(s', ev) := tick_now GuardNew now s in sched_inv s' (q ++ olist ev) now /\ q ++ olist ev <> []) /\
+  (let '(s', ev) := tick_later now s in sched_inv s' (q ++ olist ev) now /\ q ++ olist ev <> []) /\
+  (forall t, In t q -> (forall x, In x q -> t <= x) -> sched_inv (mark_handled s t) (remove1 t q) t) /\
+  (forall t, now <= t -> (forall x, In x q -> t <= x) -> sched_inv s q t).
+Proof.
+  intros s q now H. split; [exact (tick_now_new s q now H)|]. split; [exact (tick_later_ok s q now H)|].
+  split; [intros t; exact (handle_inv s q now t H)|intros t; exact (advance_inv s q now t H)].
+Qed.
+Print Assumptions c09_request_leaves_tick_pending.
+
+(** The invariant of a connection in an arbitrary environment, repaired guard: after ANY
+    sequence of sends and retrievals on its ports (by any components), engine handlings
+    of its tick events, clock advances and extra tick requests —
+      a deliverable outgoing head  ==>  a tick was requested since the last tick started
+      a tick was requested since the last tick started  ==>  a tick event is pending. *)
+Theorem c09_inv_partial : forall caps period (h : list cact) st, 1 <= period ->
+  csteps GuardNew (cinit caps period) h = Some st ->
+  (some_deliverable (c_ports (cs_conn st)) -> cs_dirty st = true) /\
+  (cs_dirty st = true -> cs_q st <> []).
+Proof.
+  intros caps period h st Hp H.
+  destruct (csteps_inv h _ st (cinit_inv caps period Hp) H) as (_ & Hd & Hl). split; assumption.
+Qed.
+Print Assumptions c09_inv_partial.
+
+(** Clause (1) at queue exhaustion, repaired guard, every topology / send pattern /
+    capacity: when no tick event of the connection is pending, none of its ports holds
+    an outgoing message whose destination has room. *)
+Theorem c09_quiescent_clean_partial : forall caps period (h : list cact) st, 1 <= period ->
+  csteps GuardNew (cinit caps period) h = Some st -> cs_q st = [] ->
+  forall k, deliv (c_ports (cs_conn st)) k = false.
+Proof.
+  intros caps period h st Hp H Hq k.
+  destruct (c09_inv_partial caps period h st Hp H) as (Hl & Hd).
+  destruct (deliv (c_ports (cs_conn st)) k) eqn:E; [|reflexivity].
+  exfalso. apply Hd; [apply Hl; exists k; exact E|exact Hq].
+Qed.
+Print Assumptions c09_quiescent_clean_partial.
+
+(** Non-vacuity: the hypotheses are met by a real run of the abstract system — a send,
+    the tick that delivers it, a retrieval; and the scheduler invariant holds initially. *)
+Example c09_nonvacuous :
+  let h := [CSend 0 (mk_msg 1 1 2 7); CHandle 0; CRetrieve 1; CAdvance 1000; CHandle 1000] in
+  (exists st, csteps GuardNew (cinit [(1, 1); (1, 1)]%Z 1000) h = Some st /\ cs_q st = []) /\
+  sched_inv (mk_sched false 0 1000 true None) [] 0.
+Proof.
+  split.
+  - eexists. split; [vm_compute; reflexivity|reflexivity].
+  - unfold sched_inv. cbn [s_period s_has s_next s_handled].
+    split; [lia|]. split; [intros x []|]. split; [discriminate|]. intros x Hx. discriminate.
+Qed.
